@@ -91,9 +91,12 @@ func runThreshold(t *testing.T, rc *RunCtx) {
 	var reqs []*reqRec
 	mkOp := func(nd *Node, duty int) *Op {
 		e := *duties[duty]
-		if ch.Pick(2, 0) == 1 {
+		switch ch.Pick(5, 0) {
+		case 0, 1:
 			e.AddrKey = shareKey[nd]
-		} else {
+		case 2:
+			e.AddrKey = gen.PubKey // the validator (composite) key; it does not resolve on the unchanged tree
+		default:
 			e.AddrPath = path
 		}
 		o := &Op{Kind: kind, Client: "client1", Entries: []Entry{e}}
